@@ -104,6 +104,17 @@ func Bytes(name string, n int) []byte {
 
 func String(name string, n int) string { return string(Bytes(name, n)) }
 
+// DictString returns a string literal occurring in the (current) code of package pkg, or "",
+// followed by 0..extra arbitrary bytes. Symbolically every dictionary entry and every suffix is
+// explored; natively the vector carries the chosen bytes.
+func DictString(name, pkg string, extra int) string {
+	n := int(next(name + ".len"))
+	if n < 0 || n > 64 {
+		panic(vectorProblem{fmt.Sprintf("dictstring %q length out of range", name)})
+	}
+	return string(Bytes(name, n))
+}
+
 func Assume(c bool) {
 	if !c {
 		panic(assumeFailed{})
@@ -117,6 +128,11 @@ func Assert(c bool, label string) {
 }
 
 func Fail(label string) { panic(assertFailed{label}) }
+
+// Tag marks the current input as belonging to a named class. A violation carries the tags attached
+// before it; known_findings.json entries name the tag of the input class they describe, so a
+// violation of the same assertion on any other input is still reported.
+func Tag(class string) {}
 
 func fmtVal(v any) string {
 	switch x := v.(type) {
